@@ -470,23 +470,98 @@ Proof.
       apply filter_In in Ia as [Ia _]. apply in_map_iff. exists (k, b). auto.
 Qed.
 
-(* on the wire (names case-insensitive): exactly one Content-Type value, the caller's when he gave
-   one — provided no caller key is Content-Type in another case *)
-Lemma wire_content_type u : keys_unique (map fst u) = true -> ct_other_case u = false ->
-  wire_values "content-type" (dict_update default_headers u) =
-  [match hlookup "Content-Type" u with Some v => v | None => "application/json" end].
+(* ---- the fixed merge (/repo 7378d1f): the caller wins in any letter case ---- *)
+Lemma dict_update_nil u : keys_unique (map fst u) = true -> dict_update [] u = u.
 Proof.
-  intros U C. rewrite merged_shape by exact U. unfold wire_values. simpl.
-  replace (String.eqb (lower "Content-Type") (lower "content-type")) with true by (vm_compute; reflexivity).
-  simpl. f_equal. replace (filter _ (filter not_ct u)) with (@nil (string * string)); [reflexivity|].
-  symmetry. apply filter_none. intros [k v] I. apply filter_In in I as [I NC]. simpl.
-  unfold ct_other_case in C.
-  destruct (String.eqb (lower k) (lower "content-type")) eqn:E; [|reflexivity]. exfalso.
-  assert (existsb (fun p : string * string =>
-            String.eqb (lower (fst p)) "content-type" && negb (String.eqb (fst p) "Content-Type")) u = true).
-  { apply existsb_exists. exists (k, v). split; [exact I|]. simpl. unfold not_ct in NC. simpl in NC.
-    rewrite NC, andb_true_r. exact E. }
-  congruence.
+  induction u as [|[k v] r IH] using rev_ind; intro U; [reflexivity|].
+  rewrite map_app in U. cbn [map fst] in U. apply keys_unique_snoc in U as [U N].
+  rewrite dict_update_snoc, IH by exact U. cbn [fst snd]. apply dict_set_fresh. exact N.
+Qed.
+
+Lemma existsb_false_all {X} (f : X -> bool) l : existsb f l = false -> forall x, In x l -> f x = false.
+Proof.
+  intros H x I. destruct (f x) eqn:E; [|reflexivity].
+  assert (existsb f l = true) by (apply existsb_exists; eauto). congruence.
+Qed.
+
+Lemma hlookup_in k u v : hlookup k u = Some v -> In (k, v) u.
+Proof.
+  induction u as [|[a b] r IH]; simpl; [discriminate|].
+  destruct (String.eqb a k) eqn:E; intro H.
+  - apply String.eqb_eq in E. inversion H; subst. left. reflexivity.
+  - right. auto.
+Qed.
+
+Lemma lower_ct : lower "Content-Type" = "content-type".
+Proof. reflexivity. Qed.
+Lemma lower_ct' : lower "content-type" = "content-type".
+Proof. reflexivity. Qed.
+
+Lemma no_ct_shape u : keys_unique (map fst u) = true -> has_ct u = false ->
+  dict_update default_headers u = ("Content-Type", "application/json") :: u.
+Proof.
+  intros U H. rewrite merged_shape by exact U.
+  pose proof (existsb_false_all _ _ H) as A.
+  destruct (hlookup "Content-Type" u) as [v|] eqn:L.
+  - apply hlookup_in in L. apply A in L. cbn [fst] in L. rewrite lower_ct in L. discriminate.
+  - f_equal. clear L U H. induction u as [|[a b] r IH]; [reflexivity|]. cbn [filter].
+    assert (N : not_ct (a, b) = true).
+    { unfold not_ct. cbn [fst]. destruct (String.eqb a "Content-Type") eqn:E; [|reflexivity].
+      apply String.eqb_eq in E. subst a. specialize (A _ (or_introl eq_refl)). cbn [fst] in A.
+      rewrite lower_ct in A. discriminate. }
+    rewrite N. f_equal. apply IH. intros x I. apply A. right. exact I.
+Qed.
+
+(* names distinct up to case: the entries matching a caller key (case-insensitively) are that one *)
+Lemma ci_unique_filter u : names_distinct_ci u = true -> forall k v, In (k, v) u ->
+  filter (fun p : string * string => String.eqb (lower (fst p)) (lower k)) u = [(k, v)].
+Proof.
+  unfold names_distinct_ci. induction u as [|[k1 v1] r IH]; intros D k v I; [destruct I|].
+  cbn [map fst keys_unique] in D. apply andb_true_iff in D as [D1 D2]. apply negb_true_iff in D1.
+  pose proof (existsb_false_all _ _ D1) as A. cbn [filter fst]. destruct I as [I|I].
+  - inversion I; subst k1 v1. rewrite String.eqb_refl. f_equal.
+    apply filter_none. intros [a b] Ia. cbn [fst].
+    rewrite String.eqb_sym. apply A. apply in_map_iff. exists (a, b). auto.
+  - destruct (String.eqb (lower k1) (lower k)) eqn:E.
+    + exfalso. assert (String.eqb (lower k1) (lower k) = false).
+      { apply A. apply in_map_iff. exists (k, v). auto. }
+      congruence.
+    + apply IH; assumption.
+Qed.
+
+Lemma caller_wins_any_case u k v : keys_unique (map fst u) = true -> names_distinct_ci u = true ->
+  In (k, v) u -> wire_values k (merge_headers u) = [v].
+Proof.
+  intros U D I. unfold merge_headers, wire_values. destruct (has_ct u) eqn:H.
+  - rewrite dict_update_nil by exact U. rewrite (ci_unique_filter u D k v I). reflexivity.
+  - rewrite no_ct_shape by assumption. cbn [filter fst]. rewrite lower_ct.
+    destruct (String.eqb "content-type" (lower k)) eqn:E.
+    + exfalso. pose proof (existsb_false_all _ _ H _ I) as A. cbn [fst] in A.
+      rewrite String.eqb_sym in E. congruence.
+    + rewrite (ci_unique_filter u D k v I). reflexivity.
+Qed.
+
+Definition caller_content_type (u : headers) : option string :=
+  match filter (fun p : string * string => String.eqb (lower (fst p)) "content-type") u with
+  | [] => None
+  | p :: _ => Some (snd p)
+  end.
+
+(* exactly one Content-Type on the wire: the caller's (any letter case) or the default *)
+Lemma content_type_on_wire u : keys_unique (map fst u) = true -> names_distinct_ci u = true ->
+  wire_values "content-type" (merge_headers u) =
+  [match caller_content_type u with Some v => v | None => "application/json" end].
+Proof.
+  intros U D. unfold merge_headers, wire_values, caller_content_type. rewrite lower_ct'.
+  destruct (has_ct u) eqn:H.
+  - rewrite dict_update_nil by exact U. unfold has_ct in H.
+    apply existsb_exists in H as [[k v] [I E]]. cbn [fst] in E. apply String.eqb_eq in E.
+    rewrite (filter_ext _ (fun p : string * string => String.eqb (lower (fst p)) (lower k))).
+    + rewrite (ci_unique_filter u D k v I). reflexivity.
+    + intro a. rewrite E. reflexivity.
+  - rewrite no_ct_shape by assumption. cbn [filter fst]. rewrite lower_ct. rewrite String.eqb_refl.
+    replace (filter _ u) with (@nil (string * string)); [reflexivity|].
+    symmetry. apply filter_none. exact (existsb_false_all _ _ H).
 Qed.
 
 (* ================= client state, schedules ================= *)
@@ -655,3 +730,354 @@ Proof.
   rewrite E in S. inversion S; subst nulled st. subst fmap.
   apply (fill_subtree t files W ND M t []). reflexivity.
 Qed.
+
+(* ================= the JSON encoding: body keys, UNSET never sent ================= *)
+Fixpoint to_json_kv (kv : list (string * vt)) : option (list (string * json)) :=
+  match kv with
+  | [] => Some []
+  | (k, x) :: r => match to_json x, to_json_kv r with Some a, Some b => Some ((k, a) :: b) | _, _ => None end
+  end.
+
+Lemma to_json_dict kv : to_json (VDict kv) = option_map JObj (to_json_kv kv).
+Proof.
+  reflexivity.
+Qed.
+
+Lemma to_json_kv_keys kv : forall kvj, to_json_kv kv = Some kvj -> map fst kvj = map fst kv.
+Proof.
+  induction kv as [|[k x] r IH]; intros kvj H; simpl in H.
+  - inversion H. reflexivity.
+  - destruct (to_json x); [|discriminate]. destruct (to_json_kv r) as [b|]; [|discriminate].
+    inversion H; subst. simpl. f_equal. apply IH. reflexivity.
+Qed.
+
+(* whatever json.dumps manages to encode contains no UNSET (and no Upload) *)
+Lemma to_json_no_unset t : forall j, to_json t = Some j -> has_unset t = false.
+Proof.
+  induction t using vt_ind2; intros j0 E; try reflexivity; try discriminate.
+  - cbn [to_json] in E. cbn [has_unset].
+    destruct ((fix go (l : list vt) : option (list json) :=
+                 match l with
+                 | [] => Some []
+                 | x :: r => match to_json x, go r with Some a, Some b => Some (a :: b) | _, _ => None end
+                 end) l) as [js|] eqn:G; [|discriminate]. clear E j0.
+    revert js G. induction H as [|x r Hx Hr IH]; intros js G; [reflexivity|].
+    destruct (to_json x) as [a|] eqn:Ex; [|discriminate].
+    match type of G with match ?g with _ => _ end = _ => destruct g as [b|] eqn:Gr; [|discriminate] end.
+    cbn [existsb]. rewrite (Hx a eq_refl), (IH b eq_refl). reflexivity.
+  - cbn [to_json] in E. cbn [has_unset].
+    destruct ((fix go (kv : list (string * vt)) : option (list (string * json)) :=
+                 match kv with
+                 | [] => Some []
+                 | (k, x) :: r => match to_json x, go r with Some a, Some b => Some ((k, a) :: b) | _, _ => None end
+                 end) kv) as [js|] eqn:G; [|discriminate]. clear E j0.
+    revert js G. induction H as [|[k x] r Hx Hr IH]; intros js G; [reflexivity|].
+    destruct (to_json x) as [a|] eqn:Ex; [|discriminate].
+    match type of G with match ?g with _ => _ end = _ => destruct g as [b|] eqn:Gr; [|discriminate] end.
+    cbn [existsb snd]. simpl in Hx. rewrite (Hx a Ex), (IH b eq_refl). reflexivity.
+  - cbn [to_json] in E. cbn [has_unset].
+    destruct ((fix go (fs : list (mfield * vt)) : option (list (string * json)) :=
+                 match fs with
+                 | [] => Some []
+                 | (f, x) :: r => match to_json x, go r with Some a, Some b => Some ((wire f, a) :: b) | _, _ => None end
+                 end) fs) as [js|] eqn:G; [|discriminate]. clear E j0.
+    revert js G. induction H as [|[f x] r Hx Hr IH]; intros js G; [reflexivity|].
+    destruct (to_json x) as [a|] eqn:Ex; [|discriminate].
+    match type of G with match ?g with _ => _ end = _ => destruct g as [b|] eqn:Gr; [|discriminate] end.
+    cbn [existsb snd]. simpl in Hx. rewrite (Hx a Ex), (IH b eq_refl). reflexivity.
+Qed.
+
+Lemma convert_dict_keys kv :
+  map fst (convert_dict kv) = map fst (filter (fun p => negb (is_unset (snd p))) kv).
+Proof. unfold convert_dict. rewrite map_map. reflexivity. Qed.
+
+Lemma get_files_keys vars : map fst (fst (get_files vars)) = map fst vars.
+Proof.
+  unfold get_files. rewrite sep_dict_spec.
+  - simpl. rewrite map_map. apply map_ext. intros [k v]. reflexivity.
+  - apply Forall_forall. intros x _. apply separate_spec.
+Qed.
+
+Definition top_level_keys (vars : option (list (string * vt))) : list string :=
+  match vars with
+  | None => []
+  | Some kv => map fst (filter (fun p => negb (is_unset (snd p))) kv)
+  end.
+
+Lemma process_variables_keys vars : map fst (fst (process_variables vars)) = top_level_keys vars.
+Proof.
+  destruct vars as [[|p r]|]; try reflexivity.
+  unfold process_variables. rewrite get_files_keys, convert_dict_keys. reflexivity.
+Qed.
+
+(* the body of every request that is sent *)
+Definition request_body (r : request) : option json :=
+  match r with
+  | RJson _ _ _ b => Some b
+  | RMultipart _ _ _ ops _ _ => Some ops
+  | RError => None
+  end.
+
+Lemma body_exact url c b : request_body (build_request url c) = Some b ->
+  exists vj, b = JObj [("query", JStr (c_query c)); ("operationName", opname_json (c_opname c));
+                       ("variables", JObj vj)] /\
+    map fst vj = top_level_keys (c_vars c) /\
+    to_json (VDict (fst (process_variables (c_vars c)))) = Some (JObj vj) /\
+    has_unset (VDict (fst (process_variables (c_vars c)))) = false.
+Proof.
+  unfold build_request. pose proof (process_variables_keys (c_vars c)) as K.
+  destruct (process_variables (c_vars c)) as [vars [files fmap]]. cbn [fst] in *.
+  destruct (to_json (VDict vars)) as [vj|] eqn:T; [|discriminate].
+  pose proof (to_json_no_unset _ _ T) as NU.
+  rewrite to_json_dict in T. destruct (to_json_kv vars) as [kvj|] eqn:Tk; [|discriminate].
+  inversion T; subst vj. intro H. exists kvj.
+  assert (B : b = body_json (c_query c) (c_opname c) (JObj kvj)).
+  { destruct (negb (is_nil files) && negb (is_nil fmap)); simpl in H; inversion H; reflexivity. }
+  split; [exact B|]. split; [rewrite (to_json_kv_keys _ _ Tk); exact K|]. split; [reflexivity | exact NU].
+Qed.
+
+(* ================= rendered dotted paths are unambiguous when keys contain no '.' ================= *)
+Fixpoint dot_free (s : string) : bool :=
+  match s with
+  | EmptyString => true
+  | String c r => negb (Ascii.eqb c "."%char) && dot_free r
+  end.
+Definition dot_or_empty (s : string) : bool :=
+  match s with EmptyString => true | String c _ => Ascii.eqb c "."%char end.
+
+Lemma sappend_assoc (a b c : string) : ((a ++ b) ++ c = a ++ (b ++ c))%string.
+Proof. induction a; simpl; congruence. Qed.
+Lemma sappend_nil_r (a : string) : (a ++ "" = a)%string.
+Proof. induction a; simpl; congruence. Qed.
+Lemma sappend_cancel_l (a b c : string) : (a ++ b = a ++ c)%string -> b = c.
+Proof. induction a; simpl; intro H; [exact H | inversion H; auto]. Qed.
+
+Definition tail_of (strs : list string) : string :=
+  fold_right (fun s acc => ("." ++ s ++ acc)%string) "" strs.
+
+Lemma render_fold p : forall acc,
+  fold_left (fun acc s => (acc ++ "." ++ seg_to_string s)%string) p acc =
+  (acc ++ tail_of (map seg_to_string p))%string.
+Proof.
+  induction p as [|s r IH]; intro acc; simpl.
+  - rewrite sappend_nil_r. reflexivity.
+  - rewrite IH. rewrite sappend_assoc. reflexivity.
+Qed.
+
+Lemma render_as_concat p : render_path p = ("variables" ++ tail_of (map seg_to_string p))%string.
+Proof. unfold render_path. apply render_fold. Qed.
+
+Lemma seg_split a : forall b r r', dot_free a = true -> dot_free b = true ->
+  dot_or_empty r = true -> dot_or_empty r' = true -> (a ++ r = b ++ r')%string -> a = b /\ r = r'.
+Proof.
+  induction a as [|c a IH]; intros [|d b] r r' Da Db Er Er' H; simpl in *.
+  - auto.
+  - subst r. simpl in Er. apply andb_true_iff in Db as [Db _]. rewrite Er in Db. discriminate.
+  - subst r'. simpl in Er'. apply andb_true_iff in Da as [Da _]. rewrite Er' in Da. discriminate.
+  - inversion H; subst d. apply andb_true_iff in Da as [_ Da]. apply andb_true_iff in Db as [_ Db].
+    destruct (IH b r r' Da Db Er Er' H2) as [E1 E2]. subst. auto.
+Qed.
+
+Lemma tail_dot_or_empty l : dot_or_empty (tail_of l) = true.
+Proof. destruct l; reflexivity. Qed.
+
+Lemma tail_inj l : forall l', forallb dot_free l = true -> forallb dot_free l' = true ->
+  tail_of l = tail_of l' -> l = l'.
+Proof.
+  induction l as [|a l IH]; intros [|b l'] D D' H; simpl in *; try reflexivity; try discriminate.
+  inversion H as [H1]. apply andb_true_iff in D as [Da D]. apply andb_true_iff in D' as [Db D'].
+  destruct (seg_split a b _ _ Da Db (tail_dot_or_empty l) (tail_dot_or_empty l') H1) as [E1 E2].
+  subst b. f_equal. apply IH; assumption.
+Qed.
+
+(* decimal indices never contain a dot *)
+Lemma uint_dot_free d : dot_free (DecimalString.NilEmpty.string_of_uint d) = true.
+Proof. induction d; simpl; auto. Qed.
+
+Lemma nat_to_string_dot_free n : dot_free (nat_to_string n) = true.
+Proof.
+  unfold nat_to_string, z_to_string. destruct (Z.of_nat n) eqn:E; simpl.
+  - reflexivity.
+  - unfold DecimalString.NilZero.string_of_uint. destruct (Pos.to_uint p); try apply uint_dot_free. reflexivity.
+  - exfalso. pose proof (Zle_0_nat n). rewrite E in H. apply H. reflexivity.
+Qed.
+
+Definition keys_dot_free (p : path) : bool :=
+  forallb (fun s => match s with SKey k => dot_free k | SIdx _ => true end) p.
+
+Lemma segs_dot_free p : keys_dot_free p = true -> forallb dot_free (map seg_to_string p) = true.
+Proof.
+  induction p as [|s r IH]; simpl; intro H; [reflexivity|].
+  apply andb_true_iff in H as [H1 H2]. apply andb_true_iff. split; [|auto].
+  destruct s; simpl; [exact H1 | apply nat_to_string_dot_free].
+Qed.
+
+(* two paths with the same rendering have the same segment strings, one by one *)
+Lemma render_injective p p' : keys_dot_free p = true -> keys_dot_free p' = true ->
+  render_path p = render_path p' -> map seg_to_string p = map seg_to_string p'.
+Proof.
+  intros D D' H. rewrite !render_as_concat in H. apply sappend_cancel_l in H.
+  apply tail_inj; auto using segs_dot_free.
+Qed.
+
+(* ================= Upload anywhere => multipart (after /repo dd85cf5) ================= *)
+(* a tree json.dumps can encode once its Uploads are nulled: no UNSET, no model left *)
+Fixpoint plain (t : vt) : bool :=
+  match t with
+  | VUnset => false
+  | VModel _ => false
+  | VList l => forallb plain l
+  | VDict kv => forallb (fun q => plain (snd q)) kv
+  | _ => true
+  end.
+
+Lemma plain_dumpv t : has_unset t = false -> plain (dumpv t) = true.
+Proof.
+  induction t using vt_ind2; intro U; simpl in *; try reflexivity; try discriminate.
+  - apply forallb_forall. intros y Iy. apply in_map_iff in Iy as [x [E Ix]]. subst y.
+    rewrite Forall_forall in H. apply H; auto. apply (existsb_false_all _ _ U x Ix).
+  - apply forallb_forall. intros y Iy. apply in_map_iff in Iy as [[k x] [E Ix]]. subst y. simpl.
+    rewrite Forall_forall in H. apply (H (k, x) Ix). apply (existsb_false_all _ _ U (k, x) Ix).
+  - induction H as [|[f x] r Hx Hr IH]; simpl in *; [reflexivity|].
+    apply orb_false_iff in U as [U1 U2]. destruct (mf_set f); simpl; [rewrite (Hx U1)|]; apply IH; exact U2.
+Qed.
+
+Lemma plain_convert t : has_unset t = false -> plain (convert_value t) = true.
+Proof.
+  induction t using vt_ind2; intro U; try reflexivity; try discriminate.
+  - simpl in *. apply forallb_forall. intros y Iy. apply in_map_iff in Iy as [x [E Ix]]. subst y.
+    rewrite Forall_forall in H. apply H; auto. apply (existsb_false_all _ _ U x Ix).
+  - simpl in *. apply forallb_forall. intros y Iy. apply in_map_iff in Iy as [[k x] [E Ix]]. subst y. simpl.
+    rewrite Forall_forall in H. apply (H (k, x) Ix). apply (existsb_false_all _ _ U (k, x) Ix).
+  - apply (plain_dumpv (VModel fs) U).
+Qed.
+
+Fixpoint to_json_l (l : list vt) : option (list json) :=
+  match l with
+  | [] => Some []
+  | x :: r => match to_json x, to_json_l r with Some a, Some b => Some (a :: b) | _, _ => None end
+  end.
+Lemma to_json_list l : to_json (VList l) = option_map JArr (to_json_l l).
+Proof. reflexivity. Qed.
+
+Lemma plain_serialisable t : plain t = true -> exists j, to_json (null_uploads t) = Some j.
+Proof.
+  induction t using vt_ind2; intro P; try (simpl; eauto; fail); try discriminate.
+  - cbn [null_uploads]. rewrite to_json_list. simpl in P.
+    assert (exists js, to_json_l (map null_uploads l) = Some js) as [js E].
+    { induction H as [|x r Hx Hr IH]; simpl in *; [eauto|].
+      apply andb_true_iff in P as [P1 P2]. destruct (Hx P1) as [a Ea]. destruct (IH P2) as [b Eb].
+      rewrite Ea, Eb. eauto. }
+    rewrite E. simpl. eauto.
+  - cbn [null_uploads]. rewrite to_json_dict. simpl in P.
+    assert (exists js, to_json_kv (map (fun q : string * vt => let (k, v) := q in (k, null_uploads v)) kv) = Some js)
+      as [js E].
+    { induction H as [|[k x] r Hx Hr IH]; simpl in *; [eauto|].
+      apply andb_true_iff in P as [P1 P2]. destruct (Hx P1) as [a Ea]. destruct (IH P2) as [b Eb].
+      rewrite Ea, Eb. eauto. }
+    rewrite E. simpl. eauto.
+Qed.
+
+(* conversion loses no Upload: the uploads separate_files can reach in the converted value are
+   exactly the Upload objects anywhere in the original, in the same order *)
+Lemma ids_dumpv t : forall p, map snd (uploads_at p (dumpv t)) = deep_ids t.
+Proof.
+  induction t using vt_ind2; intro p; simpl; try reflexivity.
+  - generalize 0. induction H as [|x r Hx Hr IH]; intro i; simpl; [reflexivity|].
+    rewrite map_app, Hx, IH. reflexivity.
+  - induction H as [|[k x] r Hx Hr IH]; simpl in *; [reflexivity|].
+    rewrite map_app, Hx, IH. reflexivity.
+  - induction H as [|[f x] r Hx Hr IH]; simpl in *; [reflexivity|].
+    destruct (mf_set f); simpl; [rewrite map_app, Hx, IH | rewrite IH]; reflexivity.
+Qed.
+
+Lemma ids_convert t : forall p, map snd (uploads_at p (convert_value t)) = deep_ids t.
+Proof.
+  induction t using vt_ind2; intro p; try reflexivity.
+  - simpl. generalize 0. induction H as [|x r Hx Hr IH]; intro i; simpl; [reflexivity|].
+    rewrite map_app, Hx, IH. reflexivity.
+  - simpl. induction H as [|[k x] r Hx Hr IH]; simpl in *; [reflexivity|].
+    rewrite map_app, Hx, IH. reflexivity.
+  - apply (ids_dumpv (VModel fs)).
+Qed.
+
+Definition all_upload_ids (vars : list (string * vt)) : list nat :=
+  flat_map (fun q : string * vt => deep_ids (snd q)) vars.
+
+Lemma ids_convert_dict vars p :
+  map snd (ups_dict uploads_at p (convert_dict vars)) = all_upload_ids vars.
+Proof.
+  unfold convert_dict, all_upload_ids. induction vars as [|[k v] r IH]; [reflexivity|]. cbn [filter snd].
+  destruct (is_unset v) eqn:Uv; cbn [negb].
+  - destruct v; try discriminate. simpl. exact IH.
+  - cbn [map fst snd ups_dict flat_map]. rewrite map_app, ids_convert, IH. reflexivity.
+Qed.
+
+Lemma plain_convert_dict vars : vars_ok vars = true -> plain (VDict (convert_dict vars)) = true.
+Proof.
+  unfold vars_ok, convert_dict. cbn [plain]. induction vars as [|[k v] r IH]; intro O; [reflexivity|].
+  cbn [forallb snd] in O. apply andb_true_iff in O as [O1 O2]. cbn [filter snd].
+  destruct (is_unset v); cbn [negb orb] in *; [apply IH; exact O2|].
+  cbn [map forallb fst snd]. apply negb_true_iff in O1. rewrite (plain_convert v O1). apply IH. exact O2.
+Qed.
+
+Lemma upload_anywhere url q o vars h t : vars_ok vars = true ->
+  let c := mk_call q o (Some vars) h t in
+  let ct := VDict (convert_dict vars) in
+  map snd (uploads_at [] ct) = all_upload_ids vars /\
+  exists files fmap vj,
+    separate [] ct ([], []) = (null_uploads ct, (files, fmap)) /\
+    NoDup files /\ (forall id, In id files <-> In id (all_upload_ids vars)) /\
+    fmap = expected_map (uploads_at [] ct) files 0 /\
+    to_json (null_uploads ct) = Some vj /\
+    (all_upload_ids vars = [] ->
+       build_request url c = RJson url (merge_headers (match h with Some x => x | None => [] end)) t (body_json q o vj)) /\
+    (all_upload_ids vars <> [] ->
+       build_request url c = RMultipart url h t (body_json q o vj) (fmap_json fmap) (files_parts files)).
+Proof.
+  intro O. cbv zeta.
+  assert (I : map snd (uploads_at [] (VDict (convert_dict vars))) = all_upload_ids vars)
+    by (apply ids_convert_dict).
+  split; [exact I|].
+  destruct (separate_characterised (VDict (convert_dict vars)) []) as [files [fmap [E [ND [M F]]]]].
+  destruct (plain_serialisable _ (plain_convert_dict vars O)) as [vj T].
+  exists files, fmap, vj. rewrite I in M.
+  split; [exact E|]. split; [exact ND|]. split; [exact M|]. split; [exact F|]. split; [exact T|].
+  assert (B : build_request url (mk_call q o (Some vars) h t) =
+              if negb (is_nil files) && negb (is_nil fmap)
+              then RMultipart url h t (body_json q o vj) (fmap_json fmap) (files_parts files)
+              else RJson url (merge_headers (match h with Some x => x | None => [] end)) t (body_json q o vj)).
+  { unfold build_request. cbn [c_vars c_headers c_timeout c_query c_opname].
+    destruct vars as [|p0 r0].
+    - simpl in E. inversion E; subst files fmap. simpl in T. inversion T; subst vj. reflexivity.
+    - rewrite process_some by discriminate. rewrite get_files_spec, E.
+      cbn [null_uploads] in T |- *. rewrite T. reflexivity. }
+  assert (Z : files = [] <-> all_upload_ids vars = []).
+  { split; intro Hn.
+    - destruct (all_upload_ids vars) as [|x r]; [reflexivity|]. exfalso.
+      assert (In x files) by (apply M; left; reflexivity). rewrite Hn in H. destruct H.
+    - destruct files as [|x r]; [reflexivity|]. exfalso.
+      assert (In x (all_upload_ids vars)) by (apply M; left; reflexivity). rewrite Hn in H. destruct H. }
+  split; intro Hn.
+  - rewrite B. rewrite (proj2 Z Hn). reflexivity.
+  - rewrite B. destruct files as [|x r]; [exfalso; apply Hn; apply Z; reflexivity|].
+    subst fmap. reflexivity.
+Qed.
+
+(* ================= upload bytes ================= *)
+Lemma sent_bytes_position_irrelevant u n : up_seekable u = true -> sent_bytes (set_pos n u) = up_content u.
+Proof. unfold sent_bytes, set_pos. simpl. intro H. rewrite H. reflexivity. Qed.
+
+Lemma send_n_all_whole n : forall u, up_seekable u = true ->
+  Forall (fun b => b = up_content u) (send_n n u).
+Proof.
+  induction n as [|n IH]; intros u H; simpl; constructor.
+  - unfold sent_bytes. rewrite H. reflexivity.
+  - apply (IH (after_send u)). exact H.
+Qed.
+
+Lemma drop_all s : drop_s (String.length s) s = EmptyString.
+Proof. induction s; simpl; auto. Qed.
+
+Lemma nonseekable_resend_empty u : up_seekable u = false -> sent_bytes (after_send u) = EmptyString.
+Proof. unfold sent_bytes, after_send, set_pos. simpl. intro H. rewrite H. apply drop_all. Qed.
